@@ -132,7 +132,7 @@ func (rw *refWeb) respond(req *http.Request, data []byte, total int64, lo int64,
 // noteHoldable: data for these torrent bytes was served (a 200 reply may
 // even carry the whole file), so the system may come to hold the pieces.
 func (rw *refWeb) noteHoldable(lo, hi int64) {
-	for i := 0; i < rw.spec.Geo.NPieces; i++ {
+	for _, i := range rw.spec.LivePieces() {
 		rw.w.noteHoldable(rw.spec, i)
 	}
 }
@@ -164,12 +164,15 @@ func (rw *refWeb) getright(w *World, req *http.Request, rec *HTTPRec) (*http.Res
 	r.tlo, r.thi = f.Offset+r.lo, f.Offset+r.hi+1
 	rw.noteHoldable(r.tlo, r.thi)
 	b := rw.behaviour()
+	if b == 1 && f.Length > 8<<20 {
+		b = 6 // a file too large to materialise is not sent whole
+	}
 	r.behaviour = b
 	rw.reqs = append(rw.reqs, r)
 	if b == 1 {
-		return rw.respond(req, rw.spec.Content[f.Offset:f.Offset+f.Length], f.Length, 0, false, b)
+		return rw.respond(req, rw.spec.Bytes(f.Offset, f.Length), f.Length, 0, false, b)
 	}
-	return rw.respond(req, rw.spec.Content[r.tlo:r.thi], f.Length, r.lo, true, b)
+	return rw.respond(req, rw.spec.Bytes(r.tlo, r.thi-r.tlo), f.Length, r.lo, true, b)
 }
 
 // hoffman serves BEP 17 requests: ?info_hash=..&piece=N&ranges=a-b (inclusive).
@@ -205,7 +208,7 @@ func (rw *refWeb) hoffman(w *World, req *http.Request, rec *HTTPRec) (*http.Resp
 	}
 	r.behaviour = bh
 	rw.reqs = append(rw.reqs, r)
-	return rw.respond(req, rw.spec.Content[r.tlo:r.thi], 0, 0, false, bh)
+	return rw.respond(req, rw.spec.Bytes(r.tlo, r.thi-r.tlo), 0, 0, false, bh)
 }
 
 // partition computes, independently of the code under test, the file
@@ -235,7 +238,7 @@ func webseedMain(rc *RunCtx) {
 	w := NewWorld(rc)
 	defer w.Shutdown()
 	kind := st.Choice(3) // 0 GetRight, 1 Hoffman, 2 both
-	opts := SpecOpts{MaxPieces: 6, MultiFile: st.Choice(3), Big: st.Bool(1, 6)}
+	opts := SpecOpts{MaxPieces: 6, MultiFile: st.Choice(3), Big: st.Bool(1, 6), Huge: true}
 	if kind != 1 {
 		opts.URLList = []string{"http://ws.example/base/"}
 	}
@@ -266,7 +269,8 @@ func webseedMain(rc *RunCtx) {
 				simrt.Probe("no-quiescent-point")
 				return
 			}
-			i := st.Choice(g.NPieces)
+			lp := spec.LivePieces()
+			i := lp[st.Choice(len(lp))]
 			pl := g.PieceLen(i)
 			nch := g.Chunks(i)
 			c0 := st.Choice(nch)
@@ -278,7 +282,7 @@ func webseedMain(rc *RunCtx) {
 			before := t.SimInFlight()
 			_, bmBefore := t.Pieces.PieceBitmap(uint32(i))
 			others := map[int]string{}
-			for j := 0; j < g.NPieces; j++ {
+			for _, j := range lp {
 				if j != i {
 					_, b := t.Pieces.PieceBitmap(uint32(j))
 					others[j] = b.String()
@@ -371,8 +375,19 @@ func webseedMain(rc *RunCtx) {
 	ctx, cancel := context.WithCancel(context.Background())
 	defer cancel()
 	off := int64(st.Choice(int(g.Length)))
+	if spec.Sparse {
+		// only the pieces at the 4 GiB mark and beyond can be completed
+		lp := spec.LivePieces()
+		tail := lp[0]
+		for k := 1; k < len(lp); k++ {
+			if lp[k] != lp[k-1]+1 {
+				tail = lp[k]
+			}
+		}
+		off = int64(tail)*g.PieceSize + int64(st.Choice(int(g.Length-int64(tail)*g.PieceSize)))
+	}
 	length := g.Length - off
-	model := spec.Content[off:]
+	model := spec.Bytes(off, spec.Geo.Length-off)
 	done := false
 	simrt.GoNamed("reader", func() {
 		r := t.NewReader(ctx, off, length)
@@ -398,7 +413,10 @@ func webseedMain(rc *RunCtx) {
 		}
 		done = pos >= length
 	})
-	limit := time.Duration(g.NPieces+2) * 10 * time.Minute
+	limit := time.Duration(len(spec.LivePieces())+2) * 10 * time.Minute
+	if spec.Sparse {
+		limit = 20 * time.Minute // every simulated second of a torrent with tens of thousands of pieces is expensive
+	}
 	start := time.Now()
 	for !done && time.Since(start) < limit && !rc.Failed() {
 		simrt.Sleep(5 * time.Second)
